@@ -982,7 +982,7 @@ func cName(name string, pkgPrefix string) string {
 			underscore = true
 		}
 	}
-	if underscore {
+	if underscore && (len(s) > len(pkgPrefix)) {
 		s = s[:len(s)-1]
 	}
 	return string(s)
@@ -1016,7 +1016,7 @@ func (g *gen) sizeof(typ *a.TypeExpr) (uint32, error) {
 func (g *gen) gatherStatuses(b *buffer, n *a.Status) error {
 	raw := n.QID()[1].Str(g.tm)
 	msg, ok := t.Unescape(raw)
-	if !ok || msg == "" {
+	if !ok || msg == "" || cName(msg, "") == "" {
 		return fmt.Errorf("bad status message %q", raw)
 	}
 	return g.addStatus(n.QID(), msg, n.Public())
